@@ -42,6 +42,9 @@ def cases(tier, seed):
         if tier == 'quick' and model not in ('clpt_donnell_bc1', 'clpt_donnell_bc2') and (alpha or inc != 1.0):
             continue
         out.append(dict(kind='load', model=model, alpha=alpha, pdC=pdC, pdT=pdT, load=load, inc=inc, seed=seed))
+        # the same load case after a tangent stiffness was evaluated on the object (as every non-linear run does)
+        if load in ('uTM', 'thetaT', 'all') and model in ('clpt_donnell_bc1', 'clpt_donnell_bc4') and (pdC or pdT):
+            out.append(dict(kind='load', model=model, alpha=alpha, pdC=pdC, pdT=pdT, load=load, inc=inc, hist='after_kT', seed=seed))
     return out
 
 
@@ -154,6 +157,12 @@ def check_load(case):
     cc, forces = build_load(case)
     inc = case['inc']
     cc._rebuild()
+    if case.get('hist') == 'after_kT':
+        from ..core import seed_eps
+        nfree = cc.calc_k0(silent=True).shape[0]
+        cst = 0.4e-3 * np.array([seed_eps(case['seed'], 4100 + i) for i in range(nfree)])
+        cc.calc_fint(cst.copy(), inc=0.7, silent=True)
+        cc.calc_kT(cst.copy(), inc=0.7, silent=True)
     fext = np.asarray(cc.calc_fext(inc=inc, silent=True), dtype=float)
     size = cc.get_size()
     excl = list(cc.excluded_dofs)
